@@ -1,6 +1,6 @@
 (* The top-level loop of _tokenize (hand model, OptModel.tok_iter) over an arbitrary set of scanners,
    its instance with the scanners regenerated from options.py (Gen/OptSrc.v), used to relate the
-   translated generator tokenize_src to the hand model, and options_to_items_src.
+   translated generator tokenize_src to the hand model.
    Definitions only; the proofs are in Opt/OptSrcCompose.v. *)
 From Coq Require Import List NArith Bool.
 From MV Require Import Base.PyStr.
@@ -70,8 +70,3 @@ Definition tokenize_with (sc : scanners) (text : str) : list token * option exn 
 
 Definition options_to_items_with (sc : scanners) (text : str) : res (list (str * str)) :=
   let '(toks, pending) := tokenize_with sc text in to_items toks pending None.
-
-(* options_to_items with every scanner and the _tokenize loop taken from the translated source
-   (Gen/OptSrc.v: tokenize_src); _to_tokens / options_to_items themselves are the hand model *)
-Definition options_to_items_src (text : str) : res (list (str * str)) :=
-  let '(toks, pending) := tokenize_src text in to_items toks pending None.
